@@ -475,6 +475,12 @@ def parseLine(raw, eols=(CRLF, LF, CR ), kind="event line"):
         index += len(eol)  # strip eol
         del raw[:index] # remove used bytes
         (yield line)
+        if eol == CR and CRLF in eols and not raw:
+            # CR was last byte received, may be first half of CRLF whose LF comes later
+            while not raw:
+                (yield None)
+            if raw[0:1] == LF:
+                del raw[0:1]
     return
 
 def parseLeader(raw, eols=(CRLF, LF), kind="leader header line", headers=None):
